@@ -192,7 +192,8 @@ class RunStateBinding(Binding):
                         elif isinstance(a.value, ast.Call) and call_attr(a.value) == "_apply_safe_state":
                             out.append(("prev", lambda d: d["cap"]))
                         else:
-                            raise AnchorError(f"unrecognised write to _prev_state in {f.qualname}: {norm(a)}")
+                            # any other expression: a snapshot of whatever the outputs hold right now
+                            out.append(("prev", lambda d: d["outs"]))
         for c in n.calls():
             if call_attr(c) == "set_value" and isinstance(c.func, ast.Attribute) and c.args:
                 t = self.tagref(c.func.value, f)
